@@ -47,10 +47,10 @@ theorem sat_generateIV (i : EncInst) : Sat R i.generateIV := by
 theorem sat_encryptCheck (i : EncInst) (a b : Nat) : Sat R (i.encryptCheck a b) := by
   cases i <;> simp only [EncInst.encryptCheck] <;> sat_tac F
 
-theorem sat_kwWrap (v : Variant) (kw : KW) (n : Nat) (h : Hdr) : Sat R (kwWrap v kw n h) := by
+theorem sat_kwWrap (kw : KW) (n : Nat) (h : Hdr) : Sat R (kwWrap kw n h) := by
   cases kw <;> simp only [kwWrap] <;> sat_tac F
 
-theorem sat_kwDerive (v : Variant) (kw : KW) (e : Enc) (j : Bool) : Sat R (kwDerive v kw e j) := by
+theorem sat_kwDerive (kw : KW) (e : Enc) : Sat R (kwDerive kw e) := by
   cases kw <;> simp only [kwDerive] <;> sat_tac F
 
 end
@@ -60,7 +60,7 @@ def Op.touchesInsts : Op → Bool
   | .newGcm _ => true | .gcmCEK _ => true | .gcmIV _ => true | _ => false
 
 macro "step_tac" F:term : tactic => `(tactic| repeat (first
-    | exact sat_kwWrap $F _ _ _ _ | exact sat_kwDerive $F _ _ _ _ | exact sat_generateCEK $F _
+    | exact sat_kwWrap $F _ _ _ | exact sat_kwDerive $F _ _ | exact sat_generateCEK $F _
     | exact sat_generateIV $F _ | exact sat_encryptCheck $F _ _ _
     | exact sat_gcmGenerateCEK $F _ | exact sat_gcmGenerateIV $F _
     | exact sat_cbcGenerateCEK $F _ | exact sat_cbcGenerateIV $F
@@ -69,8 +69,8 @@ macro "step_tac" F:term : tactic => `(tactic| repeat (first
     | apply Sat.throw (Frame.toIsPre $F) | apply Sat.panic (Frame.toIsPre $F)
     | apply Sat.bind (Frame.toIsPre $F) | intro _ | split))
 
-theorem step_frame {R : Oracle → St → St → Prop} (F : Frame R) (v : Variant) (op : Op)
-    (h : op.touchesInsts = false) : Sat R (step v op) := by
+theorem step_frame {R : Oracle → St → St → Prop} (F : Frame R) (op : Op)
+    (h : op.touchesInsts = false) : Sat R (step op) := by
   cases op <;> simp only [Op.touchesInsts, Bool.true_eq_false] at h <;> simp only [step]
   all_goals step_tac F
 
@@ -93,9 +93,9 @@ theorem sat_pushInst (g : Gcm) : Sat Ext (pushInst g) := ⟨fun _ _ => ⟨[], by
 theorem sat_setInst (i : Nat) (g : Gcm) : Sat Ext (setInst i g) := ⟨fun _ _ => ⟨[], by simp [setInst], rfl⟩⟩
 
 /-- every operation extends the log by consecutive segments of the oracle's stream -/
-theorem step_ext (v : Variant) (op : Op) : Sat Ext (step v op) := by
+theorem step_ext (op : Op) : Sat Ext (step op) := by
   by_cases h : op.touchesInsts = false
-  · exact step_frame extFrame v op h
+  · exact step_frame extFrame op h
   · cases op <;> simp only [Op.touchesInsts, not_true_eq_false] at h <;> simp only [step]
     all_goals repeat (first
       | exact sat_pushInst _ | exact sat_setInst _ _
